@@ -59,4 +59,6 @@ let () = iter_lines (fun line ->
       Printf.printf "cd %s\n" (String.concat " " (List.map dec_of_z
         [cfp_plane_w c w s; cfp_plane_h c h s; enc_plane_w c w s; enc_plane_h c h s; dec_plane_w c w s; dec_plane_h c h s]))
   | ["dct"; n; d] -> Printf.printf "dct %s\n" (dec_of_z (dtp_dctsize (zi (int_of_string n)) (zi (int_of_string d))))
+  | ["gs"; a; b; c; d; e; f] ->
+      Printf.printf "gs %s\n" (dec_of_z (getSubsamp3 (zi (int_of_string a)) (zi (int_of_string b)) (zi (int_of_string c)) (zi (int_of_string d)) (zi (int_of_string e)) (zi (int_of_string f))))
   | _ -> print_endline "?")
